@@ -62,6 +62,9 @@ type tcase struct {
 	Class string `json:"class,omitempty"`
 	// Also: keys of further statements an error of this fault may stand at.
 	Also []string `json:"also,omitempty"`
+	// Or: keys of statements that are as good as Key (which statement of a cycle of typedefs is
+	// named depends on where the cycle is entered).
+	Or []string `json:"or,omitempty"`
 }
 
 func (c tcase) key() string {
@@ -152,6 +155,8 @@ type verdict struct {
 	// StmtDiff: a loaded module holds a statement whose Location() is not the position of a
 	// statement of the text it was loaded from (or lacks one).
 	StmtDiff string
+	// BadFile: a position whose file part is not the name / path of a text of the set.
+	BadFile string
 	// Loaded: indices of the texts that ended up loaded (files-on-disk modes).
 	Loaded []int
 }
@@ -166,7 +171,7 @@ const (
 
 var modeName = []string{"Modules.Parse", "Modules.Read(path)", "AddPath + Read(name) of roots + auto-loading", "yangentry.Parse"}
 
-func run(c tcase) (verdict, string) { return runMode(c, inMemory, nil) }
+func run(c tcase) (verdict, string) { return runMode(c, inMemory, nil, 0) }
 
 // stmtLocs collects Location() of every statement of the loaded (sub)modules, per file.
 func stmtLocs(ms *yang.Modules, strip func(string) string) map[string]map[string]bool {
@@ -199,7 +204,31 @@ func stmtLocs(ms *yang.Modules, strip func(string) string) map[string]map[string
 	return out
 }
 
-func runMode(c tcase, mode int, roots []int) (v verdict, crashed string) {
+// Every file:line:col of a message (leading, wrapped or merely mentioned).
+var locRe = regexp.MustCompile("([^\\s\\[\\]\"'`]+?):(\\d+):(\\d+)")
+
+var revRe = regexp.MustCompile(`(?m)^\s*revision\s+"?(\d{4}-\d{2}-\d{2})"?\s*[;{]`)
+
+// diskName is the name the file of a text gets on disk: <name>@<revision>.yang for a module
+// that has a revision statement (RFC 7950 section 5.2; what the finder accepts for <name>).
+func diskName(name, text string) string {
+	rev := ""
+	for _, m := range revRe.FindAllStringSubmatch(text, -1) {
+		if m[1] > rev {
+			rev = m[1]
+		}
+	}
+	if rev == "" || strings.Contains(name, "@") || !strings.HasSuffix(name, ".yang") {
+		return name
+	}
+	return strings.TrimSuffix(name, ".yang") + "@" + rev + ".yang"
+}
+
+var subdirs = []string{"", "sub", filepath.Join("sub", "deep")}
+
+// runMode loads the set in the given way.  variant (files-on-disk modes): bit 0 = some files
+// stand in subdirectories (reached through a `dir/...` path entry), the rest chooses which.
+func runMode(c tcase, mode int, roots []int, variant int) (v verdict, crashed string) {
 	defer func() {
 		if r := recover(); r != nil {
 			crashed = fmt.Sprint(r)
@@ -216,7 +245,10 @@ func runMode(c tcase, mode int, roots []int) (v verdict, crashed string) {
 		if c.File != "" && c.File != c.Names[i] {
 			continue
 		}
-		if k := c.key(); k != "" {
+		for _, k := range append([]string{c.key()}, c.Or...) {
+			if k == "" {
+				continue
+			}
 			for _, loc := range bk[k] {
 				if !exp[loc] {
 					exp[loc] = true
@@ -236,7 +268,25 @@ func runMode(c tcase, mode int, roots []int) (v verdict, crashed string) {
 	}
 	ms := yang.NewModules()
 	var errs []error
-	strip := func(s string) string { return s }
+	// The file part of every position must be, exactly, the name the text was handed over under
+	// (Modules.Parse) or the path of the file it was read from, as written; positions are then
+	// compared under the name of the text.
+	nameOf := map[string]string{}
+	for _, n := range c.Names {
+		nameOf[n] = n
+	}
+	strip := func(s string) string {
+		return locRe.ReplaceAllStringFunc(s, func(m string) string {
+			sub := locRe.FindStringSubmatch(m)
+			if n, ok := nameOf[sub[1]]; ok {
+				return n + ":" + sub[2] + ":" + sub[3]
+			}
+			if v.BadFile == "" {
+				v.BadFile = fmt.Sprintf("%q in %q", sub[1], s)
+			}
+			return m
+		})
+	}
 	if mode == inMemory {
 		for i := range c.Names {
 			if err := ms.Parse(c.Texts[i], c.Names[i]); err != nil {
@@ -250,22 +300,34 @@ func runMode(c tcase, mode int, roots []int) (v verdict, crashed string) {
 		}
 		defer os.RemoveAll(dir)
 		dir, _ = filepath.EvalSymlinks(dir)
+		// files are known to goyang under the path they were found at: <path entry>/<…>/<file>
+		nameOf = map[string]string{}
+		pathOf := make([]string, len(c.Names))
 		for i := range c.Names {
-			if err := os.WriteFile(filepath.Join(dir, c.Names[i]), []byte(c.Texts[i]), 0o644); err != nil {
+			sd := ""
+			if variant&1 == 1 {
+				sd = subdirs[(variant>>1+i)%len(subdirs)]
+			}
+			pathOf[i] = filepath.Join(dir, sd, diskName(c.Names[i], c.Texts[i]))
+			nameOf[pathOf[i]] = c.Names[i]
+			os.MkdirAll(filepath.Dir(pathOf[i]), 0o755)
+			if err := os.WriteFile(pathOf[i], []byte(c.Texts[i]), 0o644); err != nil {
 				lib.Fatal("write: %v", err)
 			}
 		}
-		// files are known to goyang under their path: positions are compared under the bare name
-		strip = func(s string) string { return strings.ReplaceAll(s, dir+string(filepath.Separator), "") }
 		switch mode {
 		case readPaths:
 			for i := range c.Names {
-				if err := ms.Read(filepath.Join(dir, c.Names[i])); err != nil {
+				if err := ms.Read(pathOf[i]); err != nil {
 					errs = append(errs, err)
 				}
 			}
 		case readRoots:
-			ms.AddPath(dir)
+			if variant&1 == 1 {
+				ms.AddPath(filepath.Join(dir, "..."))
+			} else {
+				ms.AddPath(dir)
+			}
 			for _, i := range roots {
 				if err := ms.Read(strings.TrimSuffix(c.Names[i], ".yang")); err != nil {
 					errs = append(errs, err)
@@ -273,9 +335,7 @@ func runMode(c tcase, mode int, roots []int) (v verdict, crashed string) {
 			}
 		case viaEntry:
 			var paths []string
-			for i := range c.Names {
-				paths = append(paths, filepath.Join(dir, c.Names[i]))
-			}
+			paths = append(paths, pathOf...)
 			_, errs = yangentry.Parse(paths, []string{dir})
 			ms = nil
 		}
@@ -896,7 +956,7 @@ func faults() []fault {
 			x.add(s, nd("typedef", "tb"+x.mk, nd("type", "ta"+x.mk)))
 			// which type statement of the cycle is named depends on where it is entered
 			x.expect("typedef cycle", "sub:ta"+x.mk+"/type", "cycle")
-			x.c.Also = []string{"sub:tb" + x.mk + "/type"}
+			x.c.Or = []string{"sub:tb" + x.mk + "/type"}
 			return true
 		}},
 
@@ -1052,11 +1112,23 @@ func errSet(v verdict) string { return strings.Join(eRecords(lib.CanonErrs(v.err
 // loading the same bytes with Modules.Parse (v0), "" when nothing does.
 func fileModes(r interface{ Intn(int) int }, c tcase, v0 verdict, count func(string)) string {
 	// (a) Modules.Read of every file, (c) yangentry.Parse: the same outcome, positions included
+	variant := r.Intn(16)
+	for i := range c.Names {
+		if diskName(c.Names[i], c.Texts[i]) != c.Names[i] {
+			count("files with a dated name")
+		}
+		if variant&1 == 1 && subdirs[(variant>>1+i)%len(subdirs)] != "" {
+			count("files in subdirectories")
+		}
+	}
+	badFile := "a position names a file that is not the file the statement stands in (the path the file was found at, as written): "
 	for _, mode := range []int{readPaths, viaEntry} {
-		v, crash := runMode(c, mode, nil)
+		v, crash := runMode(c, mode, nil, variant)
 		switch {
 		case crash != "":
 			return modeName[mode] + ": goyang panicked: " + crash
+		case v.BadFile != "":
+			return modeName[mode] + ": " + badFile + v.BadFile
 		case v.StmtDiff != "":
 			return modeName[mode] + ": " + v.StmtDiff
 		case errSet(v) != errSet(v0):
@@ -1090,9 +1162,12 @@ func fileModes(r interface{ Intn(int) int }, c tcase, v0 verdict, count func(str
 	if len(roots) == 0 {
 		roots = []int{mods[r.Intn(len(mods))]}
 	}
-	v, crash := runMode(c, readRoots, roots)
+	v, crash := runMode(c, readRoots, roots, variant)
 	if crash != "" {
 		return modeName[readRoots] + ": goyang panicked: " + crash
+	}
+	if v.BadFile != "" {
+		return modeName[readRoots] + ": " + badFile + v.BadFile
 	}
 	if v.StmtDiff != "" {
 		return modeName[readRoots] + ": " + v.StmtDiff
@@ -1140,6 +1215,8 @@ func eRecords(dump []string) []string {
 // judge applies the marker oracle; "" when the case passes.
 func judge(c tcase, v verdict) string {
 	switch {
+	case v.BadFile != "":
+		return "a position names a file that is not the file the statement stands in (the name the text was handed over under, or the path the file was found at): " + v.BadFile
 	case v.Stray != "":
 		return "an error names a position that is not the start of a statement of that file: " + v.Stray
 	case c.Fault == "":
@@ -1248,6 +1325,12 @@ func main() {
 	for i := 0; i < n; i++ {
 		r := f.Rand(i)
 		set := gen.Generate(r, cfg)
+		// more modules with a revision (their files get the dated name on disk)
+		for _, m := range set.Mods {
+			if len(m.Revisions) == 0 && r.Intn(3) == 0 {
+				m.Revisions = []string{"2021-03-04"}
+			}
+		}
 		kind := i % period
 		var c *tcase
 		if kind < len(fs) {
